@@ -41,6 +41,7 @@ struct TCase {
     diff: [f64; 5],
     thc: [f64; 4],
     vrq: bool,
+    thorough: bool,
 }
 
 const DIFF: [f64; 5] = [-0.0489, -0.4712, 0.0535, 0.00121, 1.3e-5];
@@ -94,6 +95,7 @@ fn transport_cases(tier: Tier) -> Vec<TCase> {
             diff: arr(&mr["diffusion"]),
             thc: arr(&mr["thermal_conductivity"]),
             vrq: false,
+            thorough: tier == Tier::Thorough,
         });
     }
     // a record with both a dipole and a quadrupole, so that the model options change the residual entropy
@@ -116,6 +118,7 @@ fn transport_cases(tier: Tier) -> Vec<TCase> {
             diff: DIFF,
             thc: THC,
             vrq: false,
+            thorough: tier == Tier::Thorough,
         });
     }
     // SAFT-VRQ Mie
@@ -143,6 +146,7 @@ fn transport_cases(tier: Tier) -> Vec<TCase> {
                 diff: arr(&mr["diffusion"]),
                 thc: arr(&mr["thermal_conductivity"]),
                 vrq: true,
+                thorough: tier == Tier::Thorough,
             });
         }
     }
@@ -157,8 +161,9 @@ fn transport_case(c: &TCase, rec: &mut Rec) {
     let one = arr1(&[1.0]) * MOL;
     let tref = State::critical_point(&c.eos, None, None, Default::default()).map(|s| s.temperature.to_reduced()).unwrap_or(1.3 * c.eps * c.m.powf(0.3));
     let rmax = c.eos.max_density(Some(&one)).unwrap().to_reduced();
-    for tf in [0.6, 0.8, 1.0, 1.2, 2.0] {
-        for ef in [1e-4, 0.05, 0.3, 0.6, 0.85] {
+    let (tfs, efs): (Vec<f64>, Vec<f64>) = if c.thorough { (vec![0.5, 0.6, 0.7, 0.8, 0.9, 1.0, 1.1, 1.2, 1.5, 2.0, 3.0], vec![1e-6, 1e-4, 1e-2, 0.05, 0.1, 0.2, 0.3, 0.4, 0.5, 0.6, 0.7, 0.8, 0.85, 0.9]) } else { (vec![0.6, 0.8, 1.0, 1.2, 2.0], vec![1e-4, 0.05, 0.3, 0.6, 0.85]) };
+    for &tf in &tfs {
+        for &ef in &efs {
             let sub = format!("T={tf}|rho={ef}");
             let t = tref * tf;
             let models: Vec<(&str, &Arc<E>)> = std::iter::once(("default", &c.eos)).chain(c.eos_opt.iter().map(|e| ("options", e))).collect();
